@@ -115,8 +115,12 @@ def bounded(params):
                             try:
                                 mt_ = _matcher(metric, thr, many)
                                 lm_r = dict(mt_._match_instances(UnmatchedInstancePair(pr.copy(), ra.copy())).labelmap)
-                                out = mt_.match_instances(UnmatchedInstancePair(pr.copy(), ra.copy()))
+                                p_in, r_in = pr.copy(), ra.copy()
+                                pair_in = UnmatchedInstancePair(p_in, r_in)
+                                out = mt_.match_instances(pair_in)
                                 rb = check_relabel(pr, ra, lm_r, out.prediction_arr, out.reference_arr)
+                                if not (np.array_equal(p_in, pr) and np.array_equal(r_in, ra) and np.array_equal(pair_in.prediction_arr, pr)):
+                                    rb.append("match_instances changed the arrays of the pair it was given (a second match on the same pair sees other data)")
                                 want_matched = sorted(set(lm_r.values()))
                                 if sorted(int(x) for x in out.matched_instances) != want_matched:
                                     rb.append(f"matched_instances {sorted(int(x) for x in out.matched_instances)} but the matching assigns references {want_matched}")
@@ -132,6 +136,11 @@ def bounded(params):
                         failures.append({"input": {"pred": list(a), "ref": list(b), "metric": metric, "many": many, "thr": thr},
                                          "clauses": bad, "exception": exc, "labelmap": lm, "witness_class": wc, "replay_kind": "c03.e2e"})
                     prev = lm if lm is not None else prev
+    from . import c09 as _c09
+    ml = _c09.maplabels({"dtype": "uint8"})
+    evals += 1
+    for pb in ml["problems"][:1]:
+        failures.append({"input": {"case": pb}, "clauses": [str(pb)[:300]], "replay_kind": "c09.maplabels"})
     for mname_ in ("IOU", "DSC", "ASSD"):
         sr = scorer({"metric": mname_})
         evals += 1
